@@ -471,7 +471,7 @@ func (g *Gen) plaintext(n int) []byte {
 
 func (g *Gen) ra() []byte {
 	if g.Chance(1, 10) {
-		return g.RandBytes(g.Pick(0, 1, 15, 17, 32))
+		return g.RandBytes(g.Pick(0, 1, 15, 17, 32, g.Intn(41), g.Intn(41)))
 	}
 	return g.RandBytes(16)
 }
@@ -555,7 +555,7 @@ func evalC11(op string, args []string) string {
 func (g *Gen) salt() []byte {
 	switch g.Intn(10) {
 	case 0:
-		return g.RandBytes(g.Pick(0, 1, 3))
+		return g.RandBytes(g.Pick(0, 1, 3, 4, 16, g.Intn(20)))
 	case 1:
 		s := g.RandBytes(2)
 		s[0] &= 0x7f
